@@ -19,13 +19,37 @@ func IsTimeout(err error) bool {
 	if t {
 		return t
 	}
-	if e, ok := err.(net.Error); ok {
-		return e.Timeout()
+	if e, ok := err.(net.Error); ok && e.Timeout() {
+		return true
 	}
 	// a timeout wrapped by the dial path (fmt.Errorf("...: %w", err)) is still a timeout
 	var ne net.Error
-	if errors.As(err, &ne) {
-		return ne.Timeout()
+	if errors.As(err, &ne) && ne.Timeout() {
+		return true
+	}
+	// the outermost net.Error (e.g. *net.OpError, *url.Error) only asks its direct cause: a
+	// timeout further down an annotated chain is still a timeout
+	return chainHasTimeout(err)
+}
+
+func chainHasTimeout(err error) bool {
+	for err != nil {
+		if te, ok := err.(interface{ Timeout() bool }); ok && te.Timeout() {
+			return true
+		}
+		switch x := err.(type) {
+		case interface{ Unwrap() error }:
+			err = x.Unwrap()
+		case interface{ Unwrap() []error }:
+			for _, e := range x.Unwrap() {
+				if chainHasTimeout(e) {
+					return true
+				}
+			}
+			return false
+		default:
+			return false
+		}
 	}
 	return false
 }
